@@ -93,6 +93,13 @@ theorem indptr_loop_eq (rows : V) (nv : Nat) (init : V) :
   simp only [forLoop_eq_foldl]
   rfl
 
+/-- the tail of the sparse builders: the assembled matrix only depends on what the `indptr` loop body computes -/
+theorem bsr_loop_congr {α : Type} (b : B3) (c init : V) (xs : List Nat) (f g : V → Nat → V) (nf : Nat) (x : α)
+    (h : ∀ a i, f a i = g a i) :
+    some (bsr b c (forLoop init xs f) nf nf, x) = some (bsr b c (xs.foldl g init) nf nf, x) := by
+  have : f = g := by funext a i; exact h a i
+  rw [this]; rfl
+
 theorem genIncSparseDiag_eq (inv : M → Option Nat → M) (X : M) (mean : V) (covs : Nat → M) (n : Rat) (graph : Graph)
     (nf k : Nat) (nc : Option Nat) (bias : Nat) :
     genIncSparseDiag inv X mean covs n graph nf k nc bias = Src.incSparseDiag inv X mean covs n graph nf k nc bias := by
@@ -107,7 +114,15 @@ theorem genIncSparseDiag_eq (inv : M → Option Nat → M) (X : M) (mean : V) (c
   cases h : (List.range graph.nVertices).foldlM (Src.sparseDiagStep inv X mean n k nc bias)
       (covs, zeros3 graph.nVertices k k, zerosV graph.nVertices, zerosV graph.nVertices) with
   | none => rw [(forLoop_optLoop _ _ _).2 h]; rfl
-  | some s => rw [(forLoop_optLoop _ _ _).1 s h]; simp only [Src.assemble, Option.map_some]; rfl
+  | some s =>
+    rw [(forLoop_optLoop _ _ _).1 s h]
+    simp only [Src.assemble, Option.map_some]
+    first
+      | rfl
+      | exact bsr_loop_congr _ _ _ _ _ _ _ _ (by
+          intro acc it
+          simp only [Src.indptrStep, ite_fst, ite_snd]
+          split_ifs <;> simp_all [Nat.pos_iff_ne_zero])
 
 theorem genIncSparse_eq (mode : String) (inv : M → Option Nat → M) (X : M) (mean : V) (covs : Nat → M) (n : Rat)
     (graph : Graph) (nf k : Nat) (nc : Option Nat) (bias : Nat) :
@@ -125,7 +140,15 @@ theorem genIncSparse_eq (mode : String) (inv : M → Option Nat → M) (X : M) (
     cases h : (List.range graph.nEdges).foldlM (Src.sparseStep mode inv X mean n graph k nc bias)
         (covs, -1, zeros3 (graph.nEdges * 4) k k, zerosV (graph.nEdges * 4), zerosV (graph.nEdges * 4)) with
     | none => rw [(forLoop_optLoop _ _ _).2 h]; rfl
-    | some s => rw [(forLoop_optLoop _ _ _).1 s h]; simp only [Src.assemble, Option.map_some]; rfl
+    | some s =>
+      rw [(forLoop_optLoop _ _ _).1 s h]
+      simp only [Src.assemble, Option.map_some]
+      first
+        | rfl
+        | exact bsr_loop_congr _ _ _ _ _ _ _ _ (by
+            intro acc it
+            simp only [Src.indptrStep, ite_fst, ite_snd]
+            split_ifs <;> simp_all [Nat.pos_iff_ne_zero])
   · simp [hm]
 
 theorem genDataToMatrix_eq (data : Samples) (nsamples : Option Nat) :
@@ -328,7 +351,7 @@ theorem genAsMatrix_eq (vs : List Sample) (length : Option Nat) : genAsMatrix vs
         if_true, List.head?_cons, List.tail_cons, Option.map_some, NP.the, Option.getD_some, ite_fst, ite_snd]
       rw [loop_congr _ _ _ Src.asMatrixStep (by
         intro acc it
-        simp only [Src.asMatrixStep, dtypeOf, HasDType.dtypeOf, Sample.asVector, ite_fst, ite_snd]
+        simp only [Src.asMatrixStep, dtypeOf, HasDType.dtypeOf, Sample.asVector, ite_fst, ite_snd, canCastSafe]
         by_cases h : canCastSameKind it.2.dt acc.2.dt = true <;> simp [h])]
       simp [dtypeOf, HasDType.dtypeOf, Sample.asVector]
 
